@@ -24,7 +24,38 @@ InitState == JsonDeserialize(IOEnv.INIT_STATE)
 
 Now == st.clock.ts
 \* banks annotated with the prices the risk engine reads for them now (oracle accounts of the projected state)
-Px(banks) == WithPxP(banks, IF Has(st, "oracles") THEN st.oracles ELSE <<>>, IF Has(st, "pools") THEN st.pools ELSE <<>>, Now)
+\* venue-backed banks (Kamino 6, Solend 11, Drift 9 on Pyth push feeds): the feed's spot / time-weighted price AND both confidence
+\* values multiplied by the venue's exchange rate - Kamino / Solend: total liquidity over collateral supply, both first divided
+\* by 10^decimals in I80F48, the product floored (adjust_i64 / adjust_u64); Drift: cumulative deposit interest over 10^10 in
+\* integers.  Check order of the adapters: venue account, refreshed in this slot / second, feed owner, feed age.
+PythAdjusted(b, o, load, Adj(_)) ==
+  LET o2 == IF load = "ok" THEN [o EXCEPT !.price = Adj(o.price), !.ema = Adj(o.ema), !.conf = Adj(o.conf), !.ema_conf = Adj(o.ema_conf)] ELSE o
+      fits == BLt(o2.price, BPow2(63)) /\ BLt(o2.ema, BPow2(63)) /\ BLt(o2.conf, BPow2(64)) /\ BLt(o2.ema_conf, BPow2(64))
+      load2 == IF load = "ok" /\ ~fits THEN "MathError" ELSE load
+  IN [load |-> load2, pTW |-> PythToFix(o2.ema, o.expo), pRT |-> PythToFix(o2.price, o.expo),
+      cTW |-> ImplPythConf(o2, TRUE, b.cfg.oracle_max_conf), cRT |-> ImplPythConf(o2, FALSE, b.cfg.oracle_max_conf)]
+FeedLoad(b, o) ==
+  LET maxAge == IF b.cfg.oracle_max_age = 0 THEN IC_MAX_PYTH_ORACLE_AGE ELSE BOfInt(b.cfg.oracle_max_age) IN
+  IF ~o.owner_ok THEN "PythPushWrongAccountOwner" ELSE IF BLt(BAdd(o.ts, maxAge), Now) THEN "PythPushStalePrice" ELSE "ok"
+ReservePx(b) ==
+  LET o == st.oracles[b.cfg.oracle_keys[1]] r == st.reserves[b.cfg.oracle_keys[2]] sol == b.cfg.oracle_setup = SETUP_SOLEND_PYTH
+      load == IF ~r.owner_ok THEN (IF sol THEN "SolendReserveValidationFailed" ELSE "KaminoReserveValidationFailed")
+              ELSE IF BLt(r.slot, st.clock.slot) THEN (IF sol THEN "SolendReserveStale" ELSE "ReserveStale")
+              ELSE FeedLoad(b, o)
+      ratio == ReserveRatioBits(r)
+  IN PythAdjusted(b, o, load, LAMBDA x : KaminoAdj(x, ratio))
+MarketPx(b) ==
+  LET o == st.oracles[b.cfg.oracle_keys[1]] m == st.markets[b.cfg.oracle_keys[2]]
+      load == IF ~m.owner_ok THEN "DriftSpotMarketValidationFailed" ELSE IF BLt(m.ts, Now) THEN "DriftSpotMarketStale" ELSE FeedLoad(b, o)
+  IN PythAdjusted(b, o, load, LAMBDA x : DriftAdj(x, m.cum))
+PxFor(b) ==
+  LET oracles == IF Has(st, "oracles") THEN st.oracles ELSE <<>> IN
+  IF b.cfg.oracle_setup \in {SETUP_KAMINO_PYTH, SETUP_SOLEND_PYTH} /\ Has(oracles, b.cfg.oracle_keys[1]) /\ Has(ReservesOf(st), b.cfg.oracle_keys[2])
+  THEN ReservePx(b)
+  ELSE IF b.cfg.oracle_setup = SETUP_DRIFT_PYTH /\ Has(oracles, b.cfg.oracle_keys[1]) /\ Has(MarketsOf(st), b.cfg.oracle_keys[2])
+  THEN MarketPx(b)
+  ELSE ImplPxP(b, oracles, IF Has(st, "pools") THEN st.pools ELSE <<>>, Now)
+Px(banks) == [bn \in DOMAIN banks |-> banks[bn] @@ [px |-> PxFor(banks[bn])]]
 UserTok(a, bn) == st.accts[a].auth \o "." \o st.banks[bn].mint
 TokOf(s, t) == IF Has(s.tok, t) THEN s.tok[t].amount ELSE BZero
 SetTok(tok, t, amt) == [tok EXCEPT ![t] = [@ EXCEPT !.amount = amt]]
